@@ -96,12 +96,28 @@ def cases(seed, tier):
     for k in range(n):
         rng = trees.rng_for(seed, PID, k)
         kind = ["network", "cell", "network", "cell", "branch"][k % 5] if k % 12 else "network"
-        world = c11.make_world(rng, kind)
+        directed = None
+        if k % 10 == 7:
+            # the PADDED index array of the trainable has exactly as many entries as the module has compartments, without
+            # covering them: branches (a, b, b-a), one parameter per branch on the first two -> 2 x b entries for 2b compartments
+            a, b = [(2, 4), (1, 3), (1, 4), (2, 3), (1, 2), (3, 4)][int(rng.integers(0, 6))]
+            sizes, sel = [a, b, b - a], [0, 1]
+            perm = [int(x) for x in rng.permutation(3)]
+            sizes = [sizes[p] for p in perm]
+            sel = sorted(perm.index(x) for x in sel)
+            kind = "cell"
+            world = c11.make_world(rng, kind, st={"kind": "cell", "cells": [{"parents": [-1, 0, int(rng.integers(0, 2))], "ncomp": sizes}]})
+            directed = [{"op": "branch", "form": "list", "payload": sel}]
+        else:
+            world = c11.make_world(rng, kind)
+            if k % 10 == 3:
+                # one parameter per compartment, created through a view that lists all compartments in another order
+                directed = [{"op": "select", "nodes": [int(x) for x in rng.permutation(len(world["arrays"]["comp"]))], "edges": None}]
         world["channels"].setdefault("HH", sorted(set(int(x) for x in rng.integers(0, len(world["arrays"]["comp"]), 4))))
         routes = (k % 6 == 0) and len(world["arrays"]["comp"]) <= 14
         calls = []
         for j in range(1 if routes else int(rng.integers(1, 4))):
-            ops = gen_view_ops(rng, world)
+            ops = gen_view_ops(rng, world) if (directed is None or j > 0) else directed
             vm, ng, eg = grouping_after(world, ops)
             keys = list(NODE_KEYS)
             if any(r in set(world["channels"].get("HH", [])) for r in vm.nodes):
@@ -112,7 +128,7 @@ def cases(seed, tier):
                 keys += ["IonotropicSynapse_gS", "IonotropicSynapse_s", "IonotropicSynapse_gS"]
             if kind == "network" and any(vm.etype[e] == "TestSynapse" for e in vm.edges):
                 keys += ["TestSynapse_gC"]
-            key = str(rng.choice(keys))
+            key = str(rng.choice(keys if (directed is None or j > 0) else NODE_KEYS))
             calls.append({"ops": ops, "key": key, "vseed": int(rng.integers(0, 2**31)),
                           "init": ["list", "list", "float", "none"][int(rng.integers(0, 4))]})
         if routes and kind == "network" and world["syn"] and k % 12 == 0:
